@@ -708,10 +708,10 @@ def execute_obs(case, ctx):
 
 SUBS = [
     Sub("loader_roundtrip", execute_a, strategy=lambda tier: cases_a(tier),
-        budget={"quick": 3200, "thorough": 64000}, shards=16),
+        budget={"quick": 6400, "thorough": 64000}, shards=16),
     Sub("env_dataset", execute_env, strategy=lambda tier: cases_env(tier),
-        budget={"quick": 640, "thorough": 12800}, shards=16),
+        budget={"quick": 1280, "thorough": 12800}, shards=16),
     Sub("rollout_wrap", execute_b, strategy=lambda tier: cases_b(tier),
-        budget={"quick": 128, "thorough": 2560}, shards=16, weight=3.0),
+        budget={"quick": 256, "thorough": 2560}, shards=16, weight=3.0),
     Sub("observations", execute_obs, enumerate=_observations, shards=1, weight=0.1),
 ]
